@@ -958,6 +958,55 @@ package zygo
 //@ maporder C20 functions.go
 //@ maporder C20 builders.go
 //@ maporder C20 typeutils.go
+// (round 7: every other file of the package too; a map walk anywhere can reach an error text or a result)
+//@ maporder C20 address.go
+//@ maporder C20 arrayutils.go
+//@ maporder C20 basetypes.go
+//@ maporder C20 blake2.go
+//@ maporder C20 bsave.go
+//@ maporder C20 calendar.go
+//@ maporder C20 cfg.go
+//@ maporder C20 channels.go
+//@ maporder C20 check.go
+//@ maporder C20 closing.go
+//@ maporder C20 comment.go
+//@ maporder C20 comparisons.go
+//@ maporder C20 datastack.go
+//@ maporder C20 dates.go
+//@ maporder C20 demo_go_structs.go
+//@ maporder C20 demo_go_structs_gen.go
+//@ maporder C20 doc.go
+//@ maporder C20 exists.go
+//@ maporder C20 expressions.go
+//@ maporder C20 func.go
+//@ maporder C20 generator.go
+//@ maporder C20 gob.go
+//@ maporder C20 import.go
+//@ maporder C20 lexer.go
+//@ maporder C20 liner.go
+//@ maporder C20 listutils.go
+//@ maporder C20 makego.go
+//@ maporder C20 msgpackmap.go
+//@ maporder C20 numerictower.go
+//@ maporder C20 panicon.go
+//@ maporder C20 parser.go
+//@ maporder C20 pratt.go
+//@ maporder C20 printstate.go
+//@ maporder C20 ptrcheck.go
+//@ maporder C20 random.go
+//@ maporder C20 rawutils.go
+//@ maporder C20 regexp.go
+//@ maporder C20 repl.go
+//@ maporder C20 slurp.go
+//@ maporder C20 source.go
+//@ maporder C20 stack.go
+//@ maporder C20 strutils.go
+//@ maporder C20 system.go
+//@ maporder C20 time.go
+//@ maporder C20 unsafe.go
+//@ maporder C20 version.go
+//@ maporder C20 vm.go
+//@ maporder C20 vprint.go
 
 // The compile-time loop stack is part of "back at rest": a for loop that fails to
 // compile must take its loop record off again on every exit (the record is popped
